@@ -259,6 +259,24 @@ public class Outer {
     }
 }
 `},
+	{"Defaulted", "interface-default-method-with-undeclared-receiver-x", `package a;
+
+public interface Defaulted {
+    default void act() {
+        x.run();
+    }
+}
+`},
+	{"Levels", "enum-with-method-using-undeclared-receiver-x", `package a;
+
+public enum Levels {
+    LOW, HIGH;
+
+    void act() {
+        x.run();
+    }
+}
+`},
 	{"AccountClient", "interface-with-type-level-mapping", `package web;
 
 import org.springframework.web.bind.annotation.*;
